@@ -26,6 +26,29 @@ pub fn generate(tier: &str, rng: &mut Rng) -> Vec<String> {
         // prefix split across chunks
         out.push(format!("dec resp200 none {} 8192 8 Z 0 EV d{} p d{}", maxs, &hex(&b[..9])[1..], &hex(&b[9..])[1..]));
     }
+    // more oversize announcements with nothing behind them (seed C06d, mutant K2: a reservation made
+    // BEFORE the limit test shows only in the allocation observer): every limit class x declared
+    // lengths well over the observer's slack x 0..2 valid messages in front x prefix cut or whole
+    for max in [None, Some(0usize), Some(5), Some(1024), Some(65536), Some(1 << 20)] {
+        for len in [0x0080_0000u32, 0x0400_0000, 0x4000_0000, 0xFFFF_FFFE] {
+            if let Some(m) = max {
+                if (len as usize) <= m { continue; }
+            } else if len <= 0x0040_0000 { continue; }
+            for k in 0..3usize {
+                let mut b = Vec::new();
+                for i in 0..k {
+                    b.extend(frame(0, &[i as u8 + 1; 3][..(i + 1).min(3)]));
+                }
+                let cut = b.len() + 1 + (len as usize % 4);
+                b.push(0);
+                b.extend_from_slice(&len.to_be_bytes());
+                let maxs = max.map(|m: usize| m.to_string()).unwrap_or_else(|| "none".into());
+                let dir = if k % 2 == 0 { "req" } else { "resp200" };
+                out.push(format!("dec {} none {} {} 5 Z 0 EV d{}", dir, maxs, [8192usize, 0, 16][k], &hex(&b)[1..]));
+                out.push(format!("dec {} none {} 1024 6 Z 0 EV d{} p d{}", dir, maxs, &hex(&b[..cut])[1..], &hex(&b[cut..])[1..]));
+            }
+        }
+    }
     // rev1 S2: `Encoder::encode` fails on the second item after writing part of it — nothing of
     // that item (neither the reserved 5-byte header nor the partial payload) may be sent, the first
     // item is still delivered, then INTERNAL
